@@ -258,6 +258,18 @@ PROPS["C04"]["e2"] += [E("tree_walker", "p_walker", "lemma_tree_walker"), E("mai
 PROPS["C12"]["e2"] += [E("tree_walker", "p_walker", "lemma_tree_walker"), E("main", "p_main", "lemma_main"), E("driver_copy", "p_drivers", "lemma_driver_copy")]
 PROPS["C14"]["e2"] += [E("tree_walker", "p_walker", "lemma_tree_walker")]
 PROPS["C20"]["e2"] += [E("driver_copy", "p_drivers", "lemma_driver_copy")]
-NOT_APPLICABLE["C09"] = "in progress: ordering/kill-safety of the backup rename is checked under C03/C04 lemmas; the name-recognition logic (string/regex) is being encoded"
 
 PROPS["C11"]["e2"] += [E("copy_file", "p_copy", "lemma_copy_file")]
+
+PROPS["C09"] = {
+    "engine": "mir-smt", "technique": E2_TECH,
+    "level_text": "backup.rs symbolically executed over bounded symbolic file names (one integer per character): which siblings are recognised as backups (against an independent "
+                  "statement of <name>.~N~), next number greater than every existing one for arbitrary directory listings (one inductive step of the history), backup path construction; "
+                  "CopyHandle::new: rename strictly before the destination is re-created, failed rename never followed by a create (kill/fault safety as prefixes of the mutating-call sequence)",
+    "level_note": "trusted: MIR interpreter; summaries of std::path/OsStr/regex/str::parse (the regex pattern is read from the code and interpreted for the supported subset); "
+                  "names up to 12 (quick) / 26 (thorough) characters, listings of 2 / 3 siblings; the directory scan (ReadDir) itself is summarised",
+    "assumptions": L2_ASSUME + ["rename(2) is atomic", "the directory listing returned by read_dir contains every sibling"],
+    "e2": [E("is_num_backup", "p_backup", "lemma_is_num_backup"), E("next_backup_num", "p_backup", "lemma_next_backup_num"),
+           E("has_backup", "p_backup", "lemma_has_backup"), E("backup_path", "p_backup", "lemma_backup_path"),
+           E("handle_new", "p_handle", "lemma_handle_new")],
+}
